@@ -70,8 +70,14 @@ Print Assumptions c12_exec_call_is_sem.
    Lib/MapLang.v, Go's scoping applied; Model/SafeKVCode.v gives that language its semantics on the model's map
    ([run_method body args variadic_args map] = (map left, values returned)).  Each regenerated body equals the hand-written
    specification [sem] - and therefore the interpreted skeleton [exec_call] - for ALL arguments and ALL maps (Values: up to the order of the returned slice, which
-   Go leaves unspecified and the specification sorts: [sort_out]).  The callback methods and GetWithMap (Range, All,
-   GetWithMap, GetWithLock, Map) are not translated; [translated c] = the calls with an exact equation. *)
+   Go leaves unspecified and the specification sorts: [sort_out]).  The callback methods
+   GetWithLock, Map, Range, All (the closure All returns) are translated with the callback as a parameter of the semantics
+   ([run_cb cb mcb body args m] = (map left, number of callback calls, log of what the callbacks were handed)): GetWithLock for
+   ANY callback, Map for the model's map callback [map_cb f a b] (= user_fn, observing the size), Range / All for the model's
+   callback [stop_cb stop] that answers false on its stop-th call (never for stop = 0); [lock_enc] / [iter_enc] read the
+   model's result off the count and the log (pairs in the model's key order; for stop > 0 the count).  GetWithMap is not
+   translated.  One Gen file per method (Gen/SafeKVCode<Method>.v): a method outside the fragment falls back to its own
+   validated default.  [translated c] = the calls with an exact equation through [code_effect]. *)
 Theorem c12_code_is_model :
   (forall k m, run_method code_Get [k] [] m = sem (CGet k) m) /\
   (forall k m, run_method code_Has [k] [] m = sem (CHas k) m) /\
@@ -84,6 +90,10 @@ Theorem c12_code_is_model :
   (forall m, run_method code_Clear [] [] m = sem CClear m) /\
   (forall m, run_method code_Keys [] [] m = sem CKeys m) /\
   (forall m, let '(m', r) := run_method code_Values [] [] m in (m', sort_out r) = sem CValues m) /\
+  (forall cb k m, let '(m', n, lg) := run_cb cb no_mcb code_GetWithLock [k] m in (m', lock_enc n lg) = sem (CGetWithLock k) m) /\
+  (forall cb f a b m, let '(m', n, lg) := run_cb cb (map_cb f a b) code_Map [] m in (m', lg) = sem (CMap f a b) m) /\
+  (forall stop m, let '(m', n, lg) := run_cb (stop_cb stop) no_mcb code_Range [] m in (m', iter_enc stop n lg) = sem (CRange stop) m) /\
+  (forall stop m, let '(m', n, lg) := run_cb (stop_cb stop) no_mcb code_All [] m in (m', iter_enc stop n lg) = sem (CAll stop) m) /\
   (forall c m, translated c = true -> code_effect c m = Some (sem c m) /\ code_effect c m = exec_call c m).
 Proof. exact code_is_model. Qed.
 Print Assumptions c12_code_is_model.
